@@ -38,10 +38,12 @@ def pool_core(rng, n_extra):
         P.append(("u:1:stb.%d:0" % m, "named"))
         P.append(("u:13:stb.%d:0" % m, "named"))
     P += [(q("[10, 20, 30] elem ?1 pos"), "int"), (q("1 10 aset low"), "int"), (q("3 10 aset low"), "int")]
-    for b in (b"", b"a", b"ab", b"a\x00", b"a\x00b", b"b", b"aa", b"\xff", b"\x7f", b"A", b"a ", b"abc"):
+    for b in (b"", b"a", b"ab", b"a\x00", b"a\x00b", b"b", b"aa", b"\xff", b"\x7f", b"A", b"a ", b"abc",
+              b"a\x00c", b"a\x00bd", b"\x00", b"\x00\x00", b"\x00a", b"\x00b", b"a\x00\x00b", b"a\x00\x00a", b"\xff\x00\x01", b"\xff\x00\x02"):
         P.append(("s:%s:0" % b.hex(), "str"))
     for s in ("[]", "[1]", "[2]", "[1, 2]", "[2, 1]", "[1, 2, 3]", "[0x1]", '["a"]', '["b"]', "[[1]]", "[[]]", '[1, "a"]', '["a", 1]', "[[1], [2]]", "[[2], [1]]",
-              "[true]", "[DW_AT_name]", "[3]", '[""]', "[[], []]"):
+              "[true]", "[DW_AT_name]", "[3]", '[""]', "[[], []]",
+              '["a\\x00b"]', '["a\\x00c"]', '[1, "\\x00a"]', '[1, "\\x00b"]'):
         P.append((q(s), "seq"))
     for s in ("0 0 aset", "1 5 aset", "1 6 aset", "1 5 aset 7 9 aset add", "2 5 aset", "1 5 aset 6 9 aset add", "7 9 aset 1 5 aset add"):
         P.append((q(s), "aset"))
@@ -297,6 +299,24 @@ def run(chk):
             la, lb = len(vals[i]["v"]), len(vals[j]["v"])
             if la != lb and B(lt, i, j) != (la < lb):
                 bad("sequences-not-by-length-first", a=desc(i), b=desc(j))
+    # ... then element-wise: for equally long flat sequences whose elements are pairwise of the same type (strings / arithmetic integers)
+    def flat(v):
+        out = []
+        for e in v["v"]:
+            if e["t"] == "s":
+                out.append(("s", bytes.fromhex(e["v"])))
+            elif e["t"] == "c" and e.get("ar"):
+                out.append(("c", int(e["v"])))
+            else:
+                return None
+        return out
+    for i in groups.get("q", []):
+        for j in groups.get("q", []):
+            a, b = flat(vals[i]), flat(vals[j])
+            if a is None or b is None or len(a) != len(b) or [x[0] for x in a] != [x[0] for x in b]:
+                continue
+            if B(lt, i, j) != (a < b) or B(eq, i, j) != (a == b):
+                bad("sequences-not-element-wise", a=desc(i), b=desc(j))
     # address sets: equal iff same ranges
     for i in groups.get("as", []):
         for j in groups.get("as", []):
